@@ -141,7 +141,9 @@ pub fn run(ctx: &Ctx) -> Outcome {
             let check = |acc: &mut Acc, l: usize, lre: &Regex| -> bool {
                 let r = find_from(lre, t, 0);
                 let _ = acc.take_hooks();
-                let ok = if (l as u64) >= b { r == a } else { r == a || r == Got::Err(BT_ERR.into()) };
+                // without hooks the number of backtracks needed is unknown: only "limit error or the
+                // same answer" can be judged per limit (monotonicity is checked over the limit list)
+                let ok = if HOOKS && (l as u64) >= b { r == a } else { r == a || r == Got::Err(BT_ERR.into()) };
                 if !ok {
                     let mut v = Violation::new("C07", "limit-semantics", &s, t, 0, "find", if (l as u64) >= b { format!("{} (limit {} >= {} backtracks needed)", a.show(), l, b) } else { format!("BacktrackLimitExceeded or {}", a.show()) }, r.show());
                     v.options = json!({"backtrack_limit": l, "backtracks_needed": b});
@@ -160,10 +162,20 @@ pub fn run(ctx: &Ctx) -> Outcome {
             };
             let mut below = false;
             let mut above = false;
+            let mut answered_at: Option<usize> = None;
             for (l, lre) in &limited {
                 let errored = check(acc, *l, lre);
                 below |= errored;
                 above |= (*l as u64) >= b;
+                // monotone in the limit: once a limit suffices, every larger one does
+                if !errored && answered_at.is_none() {
+                    answered_at = Some(*l);
+                }
+                if let (true, Some(l0)) = (errored, answered_at) {
+                    let mut v = Violation::new("C07", "limit-semantics", &s, t, 0, "find", format!("the answer, as with the smaller limit {}", l0), "BacktrackLimitExceeded".into());
+                    v.options = json!({"backtrack_limit": l});
+                    acc.violate(v);
+                }
             }
             // the exact threshold, read through the hook: L = B must succeed, L = B-1 may fail
             if HOOKS && b >= 1 && b < 100_000 && (exact.len() < 6 || exact.contains_key(&b)) {
@@ -178,7 +190,7 @@ pub fn run(ctx: &Ctx) -> Outcome {
                     }
                 }
             }
-            both_sides |= b >= 1 && below && above;
+            both_sides |= (b >= 1 || !HOOKS) && below && above;
         }
         if both_sides {
             acc.distinct += 1;
